@@ -259,6 +259,13 @@ pub fn gen_c07(tier: &str, seed: u64, out: &mut dyn FnMut(Value)) {
 /// C10: any subset of operands made to fail at every position; DAG levels
 pub fn gen_c10(tier: &str, seed: u64, out: &mut dyn FnMut(Value)) {
     let mut rng = Rng::new(seed);
+    // long chains on which nothing fails, and on which the bottom fails: an error exactly when something failed
+    {
+        let events: Vec<DynEvent> = [Some(s1("1")), Some(s1("0")), None].iter().map(|v| DynEvent { source: "s".into(), id: 1, fields: v.clone().map(|v| (fpath(0), v)).into_iter().collect() }).collect();
+        for depth in [33usize, 65, 129, 200, 257, 600] {
+            out(scenario_json(&deep_chain(depth), &events, &mut rng, "long dependency chain"));
+        }
+    }
     let thorough = tier == "thorough";
     // single rule, formulas over 3 operands, each field in {true, false, missing, wrong kind}
     let vals = [Some(s1("1")), Some(s1("0")), None, Some(FieldValue::Bool(true))];
@@ -396,6 +403,7 @@ pub fn gen_c12(tier: &str, seed: u64, out: &mut dyn FnMut(Value)) {
 /// C13: S, supersets S+T, and dependency-respecting permutations of S
 pub fn gen_c13(tier: &str, seed: u64, out: &mut dyn FnMut(Value)) {
     let mut rng = Rng::new(seed);
+    crate::props::c14::gen_reference_histories(out);
     many_kinds(&mut rng, out);
     // more unrelated rules than a 16-bit index can address, loaded before or after the rules that matter: the two
     // engines must agree on every event (implementation only; the model's side is `C13_load_order`)
@@ -489,6 +497,11 @@ pub fn gen_c09(tier: &str, seed: u64, out: &mut dyn FnMut(Value)) {
     let mut rng = Rng::new(seed);
     many_matching(&mut rng, out);
     many_kinds(&mut rng, out);
+    // a dependency chain of thousands of rules scanned on a small stack (implementation only)
+    for depth in [500u64, 2000] {
+        let ev = |x: &str| serde_json::json!({"source": "s", "id": 1, "fields": [[["x"], {"s": x}]]});
+        out(serde_json::json!({"op": "history_meta", "chain": depth, "n_rules": depth, "events": [ev("1"), ev("0"), ev("1")], "tag": "implementation only: long dependency chain scanned on a 256 KiB stack", "nt": true}));
+    }
     // the C03 product already feeds every value kind to every operator; here: rule sets under scan
     crate::props::c03::gen(tier, seed, out);
     let weird = [
@@ -535,6 +548,46 @@ pub fn exec_history_meta(case: &Value) -> Value {
     core.push_str("---\nname: uses.dep\nmatch-on: {events: {s: [1, 2]}}\nmatches: {$d: \"rule(dep.last)\", $b: \".y == '1'\"}\ncondition: $d and $b\nseverity: 2\n");
     // the unrelated rules before the three that matter (indexes beyond 2^16), or after them
     let y = if fillers_last { format!("{core}{fill}") } else { format!("{fill}{core}") };
+    if let Some(depth) = case["chain"].as_u64() {
+        // `depth` rules in a chain (each one the verdict of the one before), built here, scanned on a thread whose stack
+        // is 256 KiB: the engine was built, so scanning must come back whatever the depth
+        let mut y = String::from("---\nname: c0\ntype: dependency\nmatches: {$a: \".x == '1'\"}\ncondition: $a\n");
+        for i in 1..depth {
+            let _ = write!(y, "---\nname: c{i}\ntype: {}\nmatches: {{$d: \"rule(c{})\"}}\ncondition: $d\n", if i + 1 == depth { "detection" } else { "dependency" }, i - 1);
+        }
+        let mut c = gene::Compiler::new();
+        if let Err(e) = c.load_rules_from_str(&y) {
+            return json!({"load": format!("{e:?}")});
+        }
+        let eng = match gene::Engine::try_from(c) {
+            Ok(e) => e,
+            Err(e) => return json!({"compile": format!("{e:?}")}),
+        };
+        let evs: Vec<Value> = case["events"].as_array().cloned().unwrap_or_default();
+        let h = std::thread::Builder::new().stack_size(256 * 1024).spawn(move || {
+            let pristine = eng.clone();
+            let mut used = eng;
+            for (i, ev) in evs.iter().enumerate() {
+                let ev = match crate::event::event_from_json(ev) {
+                    Ok(e) => e,
+                    Err(e) => return json!({ "badevent": e }),
+                };
+                let a = crate::scenario::scan_outcome(&mut used, &ev);
+                let b = crate::scenario::scan_outcome(&mut pristine.clone(), &ev);
+                if a != b {
+                    return json!({"differs": {"event": i, "used": a, "fresh": b}});
+                }
+                if a.get("ok").map(|o| o.is_null()).unwrap_or(true) && i == 0 {
+                    return json!({"the top of the chain is not reported": a});
+                }
+            }
+            json!({"consistent": true})
+        });
+        return match h.map(|h| h.join()) {
+            Ok(Ok(v)) => v,
+            _ => json!("panic"),
+        };
+    }
     if case["two_orders"].as_bool().unwrap_or(false) {
         // the same rules in the other load order: every event must get the identical outcome (C13)
         let y2 = if fillers_last { format!("{fill}{core}") } else { format!("{core}{fill}") };
